@@ -261,6 +261,138 @@ def identity_tp(f, t, p, hp, t_hi, p_hi=P_MAX):
     return (abs(a + b + c) / scale, (t, p))
 
 
+_CENTRAL = ((-2, 1.), (-1, -8.), (1, 8.), (2, -1.))
+_FORWARD = ((0, -25.), (1, 48.), (2, -36.), (3, 16.), (4, -3.))
+_BACKWARD = ((0, 25.), (-1, -48.), (-2, 36.), (-3, -16.), (-4, 3.))
+
+
+def _stencil(x, h, lo, hi, lo_open=False):
+    """4th-order stencil [(offset in steps, weight)] (derivative = sum w f / (12 h)) that stays inside [lo, hi]
+    ((lo, hi] when lo_open): central where there is room, else one-sided."""
+    low_ok = (x - 2. * h > lo) if lo_open else (x - 2. * h >= lo)
+    if low_ok and x + 2. * h <= hi:
+        return _CENTRAL, False
+    if not low_ok:
+        return _FORWARD, True
+    return _BACKWARD, True
+
+
+def identity_tp_edge(f, t, p, hp, t_hi, p_hi=P_MAX):
+    """The same residual as identity_tp AT the state (t, p) itself when that state is closer than two steps to
+    a limit of [T_MIN, t_hi] x (0, p_hi]: one-sided 4th-order differences replace the central ones in the
+    variable(s) concerned, so that the limit states themselves are judged (identity_tp moves its centre
+    inward there).  Returns 'interior' when no one-sided stencil is needed, None when the routine refused a
+    stencil state, else the residual."""
+    st_t, edge_t = _stencil(t, H_T, T_MIN, t_hi)
+    st_p, edge_p = _stencil(p, hp, 0., p_hi, lo_open=True)
+    if not (edge_t or edge_p):
+        return 'interior'
+    cache = {}
+
+    def at(kt, kp):
+        key = (kt, kp)
+        if key not in cache:
+            r = f(t + kt * H_T, p + kp * hp)
+            cache[key] = None if (r is None or r[0] is None) else (1. / float(r[0]), float(r[1]))
+        return cache[key]
+
+    dvdt = dvdp = dudp = 0.
+    for k, w in st_t:
+        r = at(k, 0)
+        if r is None:
+            return None
+        dvdt += w * r[0]
+    for k, w in st_p:
+        r = at(0, k)
+        if r is None:
+            return None
+        dvdp += w * r[0]
+        dudp += w * r[1]
+    r0 = at(0, 0)
+    if r0 is None:
+        return None
+    dvdt /= 12. * H_T
+    dvdp /= 12. * hp
+    dudp /= 12. * hp
+    a, b, c = dudp, (t + TC_K) * dvdt, p * dvdp
+    scale = abs(a) + abs(b) + abs(c) + 1.e-3 * r0[0]
+    if not (scale > 0. and scale < INF):
+        return INF
+    return abs(a + b + c) / scale
+
+
+# ----------------------------------------------------------------------------------------------------------
+# Region 4 (saturation line): where the quadratics of the two closed-form solutions degenerate
+# ----------------------------------------------------------------------------------------------------------
+# Coefficients n1..n10 of the IAPWS-IF97 saturation equation as published (Wagner et al. 2000, table 34).  They
+# are used ONLY to place lattice points (never as an oracle): the saturation-pressure equation solves
+#   A x^2 + B x + C = 0,  A = th^2 + n1 th + n2,  B = n3 th^2 + n4 th + n5,  C = n6 th^2 + n7 th + n8,
+#   th = T + n9 / (T - n10),
+# and the backward equation solves  E y^2 + F y + G = 0,  E = b^2 + n3 b + n6,  F = n1 b^2 + n4 b + n7,
+# G = n2 b^2 + n5 b + n8,  b = (p / 1 MPa)^(1/4).  Wherever one of A, B, C (E, F, G) passes through zero inside
+# the range, an implementation that divides by it or subtracts nearly equal roots loses all accuracy within a
+# few ulps - states no uniform lattice contains.
+N4 = (0.11670521452767e4, -0.72421316703206e6, -0.17073846940092e2, 0.12020824702470e5, -0.32325550322333e7,
+      0.14915108613530e2, -0.48232657361591e4, 0.40511340542057e6, -0.23855557567849, 0.65017534844798e3)
+
+
+def _theta(t):
+    tk = t + TC_K
+    return tk + N4[8] / (tk - N4[9])
+
+
+def sat_quadratic_coefficients(t):
+    th = _theta(t)
+    th2 = th * th
+    return (th2 + N4[0] * th + N4[1], N4[2] * th2 + N4[3] * th + N4[4], N4[5] * th2 + N4[6] * th + N4[7])
+
+
+def tsat_quadratic_coefficients(p):
+    b2 = math.sqrt(p / 1.e6)
+    b = math.sqrt(b2)
+    return (b2 + N4[2] * b + N4[5], N4[0] * b2 + N4[3] * b + N4[6], N4[1] * b2 + N4[4] * b + N4[7])
+
+
+def sign_changes(fun, lo, hi, n=20000):
+    """[(name index, x)] - for each component of fun, every place in [lo, hi] where it changes sign, located by a
+    scan of n steps and bisection down to adjacent doubles (returns the double just below the change)."""
+    out = []
+    xs = [lo + (hi - lo) * k / float(n) for k in range(n + 1)]
+    prev = fun(xs[0])
+    for a, b in zip(xs[:-1], xs[1:]):
+        cur = fun(b)
+        for i in range(len(cur)):
+            if prev[i] == 0. or (prev[i] < 0.) != (cur[i] < 0.):
+                l, h = a, b
+                fl = prev[i]
+                while True:
+                    mid = 0.5 * (l + h)
+                    if mid <= l or mid >= h:
+                        break
+                    fm = fun(mid)[i]
+                    if fm != 0. and (fm < 0.) == (fl < 0.):
+                        l = mid
+                    else:
+                        h = mid
+                out.append((i, l))
+        prev = cur
+    return out
+
+
+def neighbourhood(x, ulps=48, decades=(-13, -3)):
+    """x, its nearest 'ulps' doubles on each side, and x*(1 +- 10^k) for the decades given."""
+    pts = set([x])
+    a = b = x
+    for _ in range(ulps):
+        a, b = down(a), up(b)
+        pts.add(a)
+        pts.add(b)
+    for k in range(decades[0], decades[1] + 1):
+        pts.add(x * (1. + 10. ** k))
+        pts.add(x * (1. - 10. ** k))
+    return sorted(pts)
+
+
 def identity_dt(f, d, t):
     """Residual of (du/dv)_T = T (dp/dT)_v - p for a routine f(d, t) -> (pressure, energy), i.e.
     -d**2 (du/dd)_T - T (dp/dT)_d + p = 0, normalised by the sum of the absolute values of the terms."""
